@@ -141,6 +141,9 @@ def module_obs(tier, rnd):
             chunks = modgen.pack(items, max_forks=16, max_params=32)
             for ci, ch in enumerate(chunks):
                 g = modgen.render(items, ch, rnd)
+                fk_ = 1
+                for i_ in ch:
+                    fk_ *= max(1, items[i_].forks)
                 body = f"""
     p = Project()
     mod = p.new_module({cls_expr(mt)})
@@ -154,7 +157,7 @@ def module_obs(tier, rnd):
                 obs.append(Ob(f"mod.{mt}.v{vi}.s{ci}", build(g.params, body, setup=SETUP, extra_pre=g.pre),
                               f"{mt} inside a project: type, every controller value, every option, controller MIDI bindings and the link to Output survive save/load",
                               group="ctl", shape=f"Project[Output, {mt}], {mt} -> Output; values not listed as symbolic hold seeded in-domain constants; " + "; ".join(g.notes),
-                              symbolic=", ".join(p_[0] for p_ in g.params), timeout=240))
+                              symbolic=", ".join(p_[0] for p_ in g.params), timeout=max(240, min(900, 25 * fk_))))
     # common header + midi fields: type-independent code, decided for a few types (quick) / all (thorough)
     sel = ["Amplifier", "Output"] + rnd.sample([t for t in types if t != "Amplifier"], 2) if tier == "quick" else ["Output"] + types
     for mt in sel:
@@ -191,12 +194,16 @@ def slot_obs(tier, rnd):
                 lines.append("p.attach_module(None)")
             else:
                 params += [U32(f"sc{i}"), U8(f"r{i}")]
+                # on Smooth the keyword `scale` is the CONTROLLER of that name (range 0..400), not the common module setting
+                # (the collision recorded as known finding smooth-scale-collision under C09/C05): not what this obligation is about
+                from rv.modules import MODULE_CLASSES as _MC
+                scale_kw = f"scale=sc{i}, " if "scale" not in _MC[k].controllers else ""
                 if not signed_used:
                     params.append(I32(f"x{i}"))
-                    lines.append(f"p.attach_module({cls_expr(k)}(x=x{i}, scale=sc{i}, color=(r{i}, 1, 2)))")
+                    lines.append(f"p.attach_module({cls_expr(k)}(x=x{i}, {scale_kw}color=(r{i}, 1, 2)))")
                     signed_used = True
                 else:
-                    lines.append(f"p.attach_module({cls_expr(k)}(scale=sc{i}, color=(r{i}, 1, 2)))")
+                    lines.append(f"p.attach_module({cls_expr(k)}({scale_kw}color=(r{i}, 1, 2)))")
         if not params:
             params = [I32("x0")]
             lines.append("p.output.x = x0")
